@@ -101,7 +101,15 @@ def main():
     sh(f"git -C {SCRATCH} checkout -q -- . && git -C {SCRATCH} clean -fdq")
     shutil.rmtree(evd, ignore_errors=True)
     bad = [r for r in results if r[3] in ("MISSED", "FALSE-ALARM", "DOES-NOT-COMPILE") or r[2] == "PATCH-FAILED"]
-    json.dump(results, open(os.path.join(VERIF, "selftest", "last_results.json"), "w"), indent=1)
+    # merge with earlier results (a partial --only run must not forget the others)
+    rp = os.path.join(VERIF, "selftest", "last_results.json")
+    merged = {}
+    if os.path.exists(rp):
+        for r in json.load(open(rp)):
+            merged[(r[0], r[1], r[2])] = r
+    for r in results:
+        merged[(r[0], r[1], r[2])] = list(r)
+    json.dump([merged[k] for k in sorted(merged)], open(rp, "w"), indent=1)
     print(f"{len(results)} runs, {len(bad)} bad")
     if "--keep" not in args:
         pass
